@@ -156,6 +156,25 @@ theorem C12_truncate_after_compact (es : List SEntry) (k j : Nat)
   rw [h.1]
   exact C12_truncate_exact _ h.2.1 j hj
 
+/-- **C12, crash during compaction.** `Compact` writes the temporary file and renames it over
+    `log.bin`; a crash exposes either the old file or the new one (E2 checks that against the
+    syscalls). Reopening reads, in the first case, all entries; in the second, exactly the
+    entries the rewrite kept (whose fields other than the offset are those of `es.drop k`,
+    `C12_compact_rewrites_exactly`). The bound on the rewritten entries is stated on the
+    output because an offset is part of its record; it holds whenever the file is below 2^32 bytes. -/
+theorem C12_crash_during_compact_old_or_new (es : List SEntry) (k : Nat) (hes : ∀ e ∈ es, EntryOK e)
+    (hnew : ∀ e ∈ (writeSeq [] (es.drop k)).2, EntryOK e) (image : Bytes)
+    (himg : image = fileOf es ∨ image = (writeSeq [] (es.drop k)).1) :
+    replay decodeLogBody image = .ok es (fileOf es).length ∨
+      replay decodeLogBody image = .ok (writeSeq [] (es.drop k)).2 (fileOf (writeSeq [] (es.drop k)).2).length := by
+  rcases himg with h | h
+  · left; rw [h]; exact C12_recover_complete es hes
+  · right
+    have hc := C12_compact_rewrites_exactly es k
+    simp only at hc
+    rw [h, hc.1]
+    exact C12_recover_complete _ hnew
+
 /-- `DiscardEntries(index, term)` replaces the file by one placeholder record at offset 0. -/
 theorem C12_discard_exact (index term : Nat) :
     OffsetsOK [{ index := index, term := term : SEntry }] := by
@@ -173,5 +192,8 @@ example : replay decodeLogBody (fileOf [{ index := 0, term := 0 }, exE1] ++ (fil
     .ok [{ index := 0, term := 0 }, exE1] 20 := by decide
 /-- Compaction of [placeholder, e1, e2] at position 1: e1 moves to offset 0, e2 to 14. -/
 example : (writeSeq [] ([{ index := 0, term := 0 }, exE1, exE2].drop 1)).2.map (·.offset) = [0, 14] := by decide
+/-- the output hypothesis of `C12_crash_during_compact_old_or_new` is met by that example -/
+example : ∀ e ∈ (writeSeq [] ([{ index := 0, term := 0 }, exE1, exE2].drop 1)).2, EntryOK e := by
+  unfold EntryOK U64; decide
 
 end Raft.LogFile
